@@ -106,9 +106,39 @@ def abandoned_read_case(rng):
     return conn_case(rng.choice([64, 8192]), 1, segs, scripts, [], ws, rng.choice([0, 1])), ["peer", "query", "abandoned-read-then-write"]
 
 
+def mixed_poll_case(rng):
+    """handlers that mix awaited reads, reads polled once and dropped, writes and flushes in any order, no transport faults, ungated
+    client: model and crate must agree; a self-deadlock after (abandoned read; write) is the known finding F6"""
+    B = rng.choice([24, 64, 256, 8192])
+    w, m = C07.gen_request(rng, 1, False, B)
+    role = m[1]
+    ops = []
+    for _ in range(rng.randrange(2, 9)):
+        r = rng.random()
+        if r < 0.25:
+            ops.append(("read", rng.choice([1, 7, 64])))
+        elif r < 0.45:
+            ops.append(("poll1", rng.choice([0, 1, 16])))
+        elif r < 0.55:
+            ops.append(("fill", rng.choice([0, 5, 10 ** 6])))
+        elif r < 0.62:
+            ops.append(("writeable",))
+        elif r < 0.85:
+            ops.append(("write", rng.choice([STDOUT, STDERR]), [rng.randrange(256) for _ in range(rng.choice([0, 1, 9, 40]))]))
+        elif r < 0.92:
+            ops.append(("flush", STDOUT))
+        else:
+            ops.append(("readall",))
+    ops.append(("ret", 0, 0))
+    ws = [rng.choice([0, 1, 3, 8, 30, 10 ** 6, 10 ** 6]) for _ in range(rng.randrange(0, 25))]
+    return conn_case(B, 1, [(0, 0, w)], [ops], C07.io_script(rng, 200, "r"), ws, rng.choice([0, 1])), ["peer", "mixed-poll"]
+
+
 def gen_cases(rng, tier):
     for _ in range(1500 if tier == "quick" else 80000):
         yield one(rng)
+    for _ in range(400 if tier == "quick" else 20000):
+        yield mixed_poll_case(rng)
     for _ in range(6 if tier == "quick" else 60):
         yield abandoned_read_case(rng)
 
@@ -118,7 +148,7 @@ def nontrivial(line, tags):
 
 
 def min_classes(tier):
-    return {"before-first": 150, "after-params": 150, "mid-stream": 150, "same-segment-as-end": 150, "between": 100, "abandoned-read-then-write": 6}
+    return {"before-first": 150, "after-params": 150, "mid-stream": 150, "same-segment-as-end": 150, "between": 100, "abandoned-read-then-write": 6, "mixed-poll": 400}
 
 
 def signature(line, impl_line):
